@@ -546,7 +546,8 @@ def env_names() -> list[str]:
     return _ENV_NAMES
 
 
-def _exec_once(case: dict[str, Any], scratch: str, faults: list[dict[str, Any]], knobs: dict[str, Any], new: dict[str, bytes | None] | None) -> tuple[Exec, simproc.ProcResult]:
+def _full_knobs(case: dict[str, Any], knobs: dict[str, Any]) -> dict[str, Any]:
+    """The execution's knobs plus the workload's environment seams (identity, disk, mounts)."""
     if case.get("euid") is not None:
         knobs = dict(knobs, euid=case["euid"])
     if case.get("low_disk"):
@@ -554,6 +555,11 @@ def _exec_once(case: dict[str, Any], scratch: str, faults: list[dict[str, Any]],
     mounts = [rel for rel, e in case["tree"].items() if e.get("mnt")]
     if mounts:
         knobs = dict(knobs, mounts=mounts)
+    return knobs
+
+
+def _exec_once(case: dict[str, Any], scratch: str, faults: list[dict[str, Any]], knobs: dict[str, Any], new: dict[str, bytes | None] | None) -> tuple[Exec, simproc.ProcResult]:
+    knobs = _full_knobs(case, knobs)
     ex = Exec(case, os.path.join(scratch, "t"), faults, knobs, new)
     stage = None
     if case.get("env"):
@@ -754,7 +760,10 @@ def _run_case(env: Env, case: dict[str, Any], scratch: str, want_trace: bool) ->
         pid = os.fork()
         if pid == 0:
             try:
-                exb = Exec(case, root_b, faults, {"listing": "native", "real_exit": True}, None)
+                exb = Exec(case, root_b, faults, _full_knobs(case, {"listing": "native", "real_exit": True}), None)
+                if case.get("env"):
+                    stage_b = tempfile.mkdtemp(prefix="dst-stage-" + os.environ.get("VERIF_RUN_TAG", "x") + "-", dir=tempfile.gettempdir())
+                    exb.env = {k_: (stage_b if v_ == "dir" else v_) for k_, v_ in case["env"].items()}
                 exb.run()
             finally:
                 os._exit(0)
